@@ -25,6 +25,8 @@ def main():
     shutil.rmtree(scr, ignore_errors=True)
     os.makedirs('/tmp/scr', exist_ok=True)
     sh(f'rsync -a --exclude target --exclude .git /repo/ {scr}/')
+    # cargo's freshness test is mtime based: a copy with old mtimes over an earlier (patched) build would be taken as fresh
+    sh(f'find {scr}/src {scr}/tests -name "*.rs" -exec touch {{}} +')
     demo_name = 'seed_demo_' + re.sub(r'[^A-Za-z0-9_]', '_', name)
     shutil.copy(demo, f'{scr}/tests/{demo_name}.rs')
     env = {'CARGO_TARGET_DIR': tgt, 'CARGO_NET_OFFLINE': 'true'}
